@@ -685,7 +685,9 @@ def shape_crosscheck(log, t: Tally):
 
 def run(ctx):
     thorough = ctx.thorough
-    versions = ALL_VERSIONS if thorough else [v for v in ALL_VERSIONS if isinstance(v, int) and v >= 10]
+    # every historical version in both tiers (a converter step is only exercised by files older than it);
+    # the tiers differ in how many field deviations are carried down
+    versions = ALL_VERSIONS
     cases = [{"k": "shipped", "file": n} for n in shipped_files()]
     for ft in G.FTYPES:
         devs = G.deviations(ft)
